@@ -334,6 +334,37 @@ func c05Precedence(c *core.Ctx) {
 			}
 		}
 	}
+	// which checks may depend on the request kind: the `upgrade` flag licenses exactly the three "plain request" rejects
+	// (with polarity !upgrade); every other check applies to plain and upgrade requests alike
+	upgName := paramName(u, 1)
+	dep := map[string]bool{"BAD_REQUEST[TRANSPORT_MISMATCH]": true, "BAD_REQUEST[PLAIN_REQUEST_ON_UPGRADE_ONLY_SESSION]": true, "BAD_REQUEST[TRANSPORT_HANDSHAKE_ERROR]": true}
+	facts := g.Facts()
+	for _, n := range names {
+		rr := by[n]
+		if rr == nil {
+			continue
+		}
+		var on []bool
+		for _, f := range facts {
+			if isLocal(info, f.Br.Cond, upgName) && g.EdgeDominates(f.Br.B, f.Edge, rr.ret.Loc) {
+				on = append(on, f.Val)
+			}
+		}
+		if dep[n] {
+			c.Check(R, keyf("%s/%s-only-for-plain-requests", bsVerify, n), rr.ret.Stmt.Pos(), len(on) == 1 && !on[0], keyf("licensed by %s == false (facts on %s: %v)", upgName, upgName, on))
+		} else {
+			c.Check(R, keyf("%s/%s-independent-of-request-kind", bsVerify, n), rr.ret.Stmt.Pos(), len(on) == 0, keyf("the check applies to plain and upgrade requests alike (facts on %s dominating the reject: %v)", upgName, on))
+		}
+	}
+	if okRet != nil {
+		n := 0
+		for _, f := range facts {
+			if isLocal(info, f.Br.Cond, upgName) && g.EdgeDominates(f.Br.B, f.Edge, okRet.Loc) {
+				n++
+			}
+		}
+		c.Check(R, bsVerify+"/admit-independent-of-request-kind", okRet.Stmt.Pos(), n == 0, "no test of the upgrade flag dominates the admitting return")
+	}
 	// FORBIDDEN carries the hook's own error text
 	if f := by["FORBIDDEN"]; f != nil && len(f.ret.Stmt.Results) > 1 {
 		ok := false
